@@ -621,6 +621,9 @@ func writeEvidence(root string, spec *CheckSpec, tier string, seed int64, P *Pro
 		samples = append(samples, map[string]interface{}{"note": "no passing path was sampled on this run"})
 	}
 	cov["samples"] = samples
+	if spec.Assumptions == nil {
+		spec.Assumptions = []string{}
+	}
 	ev := map[string]interface{}{
 		"property_id": spec.Property,
 		"tier":        tier,
